@@ -418,6 +418,13 @@ def z3_to_py(v):
     return None
 
 
+class _Forked(int):
+    """A decision taken at a genuine fork (both outcomes feasible); int 0/1 so it works as a truth value."""
+
+    def __repr__(self):
+        return f"F{int(self)}"
+
+
 class Cex:
     """A counterexample: obligation label + concrete values of the named inputs."""
 
@@ -485,7 +492,7 @@ class Explorer:
     """Depth-first path exploration by re-execution."""
 
     def __init__(self, body, *, name="case", max_paths=200000, time_budget=600.0, solver_timeout_ms=20000,
-                 recip_mode=False, known_regions=None, max_cex_per_label=2, logic=None):
+                 recip_mode=False, known_regions=None, max_cex_per_label=2, logic=None, part=None):
         self.body = body
         self.name = name
         self.max_paths = max_paths
@@ -499,6 +506,7 @@ class Explorer:
         self.known_hits = []  # (label, region_id, values)
         self.incomplete = None
         self.logic = logic
+        self.part = part  # (i, m): explore only the paths whose first m genuine forks follow the bits of i
         # per-path state
         self.solver = None
         self.prefix = []
@@ -620,14 +628,18 @@ class Explorer:
                 else:
                     if r_t == z3.unknown or r_f == z3.unknown:
                         self.incomplete = self.incomplete or "solver unknown at a branch"
-                    d = True
-                    self.pending.append(self.prefix[: self.pos] + [False])
-                    self.stats.forks += 1
+                    nf = sum(1 for x in self.prefix[: self.pos] if isinstance(x, _Forked))
+                    if self.part is not None and nf < self.part[1]:
+                        d = _Forked((self.part[0] >> nf) & 1)
+                    else:
+                        d = _Forked(1)
+                        self.pending.append(self.prefix[: self.pos] + [_Forked(0)])
+                        self.stats.forks += 1
             self.prefix.append(d)
         self.pos += 1
         self.stats.decisions += 1
         self.solver.add(cond if d else z3.Not(cond))
-        return d
+        return bool(d)
 
     def choose(self, n, label="choice"):
         """Non-deterministic choice among range(n): forks (every value is feasible)."""
